@@ -4,6 +4,9 @@ import json, os
 HERE = os.path.dirname(os.path.dirname(os.path.abspath(__file__)))
 props = [json.loads(l) for l in open(os.path.join(HERE, "properties.jsonl"))]
 CLAIMED = {
+ "C11": dict(module="Inherit", design="5 C11", technique="TLA+ spec Inherit (declarative per-attribute merge along the MRO + failure condition) checked by TLC against the re-validation rule; every enumerated hierarchy built for real (class body and add_parameter) and every slot compared",
+   text="The specification gives, for each hierarchy shape (chain, chain with a skipping class, diamond in both base orders) and each combination of declarations, the merged value of every Parameter attribute and whether class creation must fail; TLC checks NoContradiction, InstantiateInherited and that the implementation's re-validation trigger is sufficient, over the whole enumerated space. Every hierarchy is then built with type() and again through add_parameter, comparing type, default, bounds, doc, constant, allow_None, instantiate and whether creation raised.",
+   note="Exhaustive over shapes x curated declaration set (18 declarations; quick tier uses a 12-declaration subset); declarations whose own constructor raises are outside the domain."),
  "C01": dict(module="Validate", design="5 C01", technique="TLA+ spec Validate (Accepts operator over 23 Parameter types x constraint configurations x candidate values) + TLC invariants; every (type, configuration) verdict table replayed through six routes on real Parameters",
    text="The specification states, per Parameter type and constraint configuration, which candidate values are accepted; TLC enumerates the whole product and checks StoredValid, Boundary (boundary accepted iff inclusive), NaNOutside, NoneIffAllowed on it. Every table is replayed: each candidate is tried through class declaration, constructor, instance attribute, class attribute, param.update and (where expressible in JSON) deserialization, comparing accept/reject, exception class (ValueError/TypeError), read-back, and that a rejected attempt leaves the previous value.",
    note="Exhaustive over the enumerated space (exhaustive:true); the space is finite by construction (bounds from a small set, candidates at/inside/outside each bound, Fraction/Decimal/NaN/inf, wrong kinds). Documented or ambiguous inputs are outside the domain and listed in the evidence assumptions."),
